@@ -171,7 +171,7 @@ impl ServerProc {
                 return false;
             }
             let _ = s.send_to(&req, self.addr());
-            if s.recv_from(&mut buf).is_ok() {
+            if recv_from_port(&s, &mut buf, self.port).is_ok() {
                 return true;
             }
         }
@@ -312,7 +312,7 @@ fn startup_case(out: &mut Out, r: &mut Rng, cfg: &ProcCfg) {
         let req = if r.chance(1, 2) { classic_request(&r.bytes(64), 1024) } else { ietf_request(&VER13, None, &r.bytes(32), 1024) };
         let _ = s.send_to(&req, sp.addr());
         sent += 1;
-        if let Ok((k, _)) = s.recv_from(&mut buf) {
+        if let Ok((k, _)) = recv_from_port(&s, &mut buf, sp.port) {
             answered += 1;
             if let Some(pk) = online_key_of(&buf[..k]) {
                 // classic and IETF responders of one worker have different online keys: count workers by classic key
@@ -375,7 +375,7 @@ fn startup_case(out: &mut Out, r: &mut Rng, cfg: &ProcCfg) {
     let mut udp_after = 0;
     for _ in 0..3 {
         let _ = s.send_to(&classic_request(&r.bytes(64), 1024), sp.addr());
-        if s.recv_from(&mut buf).is_ok() { udp_after = 1; break; }
+        if recv_from_port(&s, &mut buf, sp.port).is_ok() { udp_after = 1; break; }
     }
     let live1 = sp.live_workers();
     let alive = sp.child.try_wait().ok().flatten().is_none();
@@ -494,7 +494,7 @@ fn workers_round(out: &mut Out, r: &mut Rng, nworkers: usize, nclients: usize, p
                     }
                     barrier.wait(); // all clients have sent; the main thread now continues the server
                     for _ in 0..per_client {
-                        if let Ok((n, _)) = sock.recv_from(&mut buf) {
+                        if let Ok((n, _)) = recv_from_port(&sock, &mut buf, addr.port()) {
                             attribute(&mut pairs, &mut extra, buf[..n].to_vec());
                         } else {
                             break;
@@ -506,7 +506,7 @@ fn workers_round(out: &mut Out, r: &mut Rng, nworkers: usize, nclients: usize, p
                         let req = if rr.chance(1, 2) { classic_request(&rr.bytes(64), 1024) } else { ietf_request(&VER13, None, &rr.bytes(32), 1024 + 4 * rr.below(20) as usize) };
                         sock.send_to(&req, addr).unwrap();
                         pairs.push((req, vec![]));
-                        if let Ok((n, _)) = sock.recv_from(&mut buf) {
+                        if let Ok((n, _)) = recv_from_port(&sock, &mut buf, addr.port()) {
                             attribute(&mut pairs, &mut extra, buf[..n].to_vec());
                         }
                     }
@@ -517,7 +517,7 @@ fn workers_round(out: &mut Out, r: &mut Rng, nworkers: usize, nclients: usize, p
                 sock.set_read_timeout(Some(Duration::from_millis(300))).unwrap();
                 let late_start = std::time::Instant::now();
                 loop {
-                    match sock.recv_from(&mut buf) {
+                    match recv_from_port(&sock, &mut buf, addr.port()) {
                         Ok((n, _)) => attribute(&mut pairs, &mut extra, buf[..n].to_vec()),
                         Err(_) => {
                             let missing = pairs.iter().any(|(_, rs)| rs.is_empty());
@@ -653,7 +653,7 @@ fn shutdown_case(out: &mut Out, r: &mut Rng, nworkers: usize, client_stats: bool
                     for _ in 0..64 {
                         let _ = sock.send_to(&req, addr);
                     }
-                    while let Ok((n, _)) = sock.recv_from(&mut buf) {
+                    while let Ok((n, _)) = recv_from_port(&sock, &mut buf, addr.port()) {
                         if pairs.len() < 40 {
                             pairs.push((req.clone(), buf[..n].to_vec()));
                         }
@@ -667,7 +667,7 @@ fn shutdown_case(out: &mut Out, r: &mut Rng, nworkers: usize, client_stats: bool
                     let _ = sock.send_to(&req, addr);
                     outstanding.push(req);
                     if outstanding.len() > 64 { outstanding.remove(0); }
-                    if let Ok((n, _)) = sock.recv_from(&mut buf) {
+                    if let Ok((n, _)) = recv_from_port(&sock, &mut buf, addr.port()) {
                         let reply = buf[..n].to_vec();
                         // attribute by echoed nonce; a reply with an unknown nonce is kept against an
                         // empty request so that the verifier reports it
@@ -880,7 +880,7 @@ pub fn run_procleak(ctx: &Ctx) {
                     while t0.elapsed() < Duration::from_millis(1300) {
                         let d = match r.below(3) { 0 => classic_request(&r.bytes(64), 1024), 1 => ietf_request(&VER13, None, &r.bytes(32), 1024), _ => r.bytes(1024) };
                         let _ = s.send_to(&d, sp.addr());
-                        let _ = s.recv_from(&mut buf);
+                        let _ = recv_from_port(&s, &mut buf, sp.port);
                     }
                     sp.signal(libc::SIGINT);
                     let _ = sp.wait_exit(Duration::from_secs(5));
